@@ -9,25 +9,34 @@ from engine import facts
 from engine.rules import Ctx
 from engine.cone import Cone
 from engine.panics import enumerate_sites, auto_discharge, stable_key
-src = json.load(open(os.path.join(HERE, 'tables', 'panic_audit.src.json')))
+import re
+DEPS = '--deps' in sys.argv
+if DEPS:
+    sys.argv.remove('--deps')
+TABLE = 'panic_audit_deps' if DEPS else 'panic_audit'
+src = json.load(open(os.path.join(HERE, 'tables', TABLE + '.src.json')))
 F = facts.load(verbose=False)
+if DEPS:
+    F.load_deps()
 ctx = Ctx('x', F)
 out = {}
 # keep every existing entry (line-free keys stay valid across edits elsewhere); the source
 # file only adds or overrides entries for sites it can locate on the current tree
-_old = os.path.join(HERE, 'tables', 'panic_audit.json')
+_old = os.path.join(HERE, 'tables', TABLE + '.json')
 if os.path.exists(_old):
     for e in json.load(open(_old)):
         out[e['key']] = e
 missing = set(src.keys())
 for prop in sys.argv[1:]:
     mod = importlib.import_module('rules.' + prop)
-    cone = Cone(ctx, mod.ROOTS, stop=getattr(mod, 'STOP', ()))
+    cone = Cone(ctx, mod.ROOTS, stop=getattr(mod, 'DEP_STOP' if DEPS else 'STOP', ()))
     n = {}
     for s in enumerate_sites(ctx, cone):
         if auto_discharge(s):
             continue
-        tag = "%s|%s" % (s.loc, s.kind)
+        if DEPS and F.crate_of(s.body.path) not in facts.DEP_CRATES:
+            continue
+        tag = "%s|%s" % (re.sub(r'^.*/registry/src/[^/]+/', '', s.loc), s.kind)
         n[tag] = n.get(tag, 0) + 1
         t = tag + ('#%d' % n[tag] if n[tag] > 1 else '')
         e = src.get(t) or src.get(tag)
@@ -35,11 +44,11 @@ for prop in sys.argv[1:]:
             continue
         missing.discard(t); missing.discard(tag)
         k = stable_key(s)
-        ent = dict(key=k, status=e['status'], reason=e['reason'], example_site=s.loc, kind=s.kind)
+        ent = dict(key=k, status=e['status'], reason=e['reason'], example_site=re.sub(r'^.*/registry/src/[^/]+/', '', s.loc), kind=s.kind)
         if 'requires' in e:
             ent['requires'] = e['requires']
         if 'callers' in e:
             ent['callers'] = e['callers']
         out[k] = ent
-json.dump(sorted(out.values(), key=lambda x: x['key']), open(os.path.join(HERE, 'tables', 'panic_audit.json'), 'w'), indent=1)
+json.dump(sorted(out.values(), key=lambda x: x['key']), open(os.path.join(HERE, 'tables', TABLE + '.json'), 'w'), indent=1)
 print('entries', len(out), 'unmatched source entries', sorted(missing))
